@@ -5,7 +5,7 @@
 #   usage: mut_translate.sh <name> <file.go> <perl-substitution> [expect=fail|pass]
 #          mut_translate.sh suite          -- one mutation per target group (old and new), see the list at the end
 set -u
-TIE_MODULES="Girc.Props.TieNames Girc.Props.TieGlob Girc.Props.TieWire Girc.Props.TieModes Girc.Props.TieCtcp Girc.Props.TieFormat"
+TIE_MODULES="Girc.Props.TieNames Girc.Props.TieGlob Girc.Props.TieWire Girc.Props.TieModes Girc.Props.TieCtcp Girc.Props.TieFormat Girc.Props.TieState Girc.Props.TieSasl Girc.Props.TieRate Girc.Props.TieCommands Girc.Props.TieCap"
 if [ "${1:-}" = "suite" ]; then
   me="$0"; rc=0
   run() { out="$("$me" "$@")"; echo "$out"; case "$out" in *"=> OK"*) ;; *) rc=1;; esac; }
@@ -43,6 +43,40 @@ if [ "${1:-}" = "suite" ]; then
   run trimfmt-brace    format.go   's/string\(fmtOpenChar\)\+color\+string\(fmtCloseChar\)/string(fmtCloseChar)+color+string(fmtOpenChar)/'
   run stripraw-regex   format.go   's/\[019\]\?\\d\(,\[019\]\?\\d\)\?\)`\)/[019]?\\d(;[019]?\\d)?)`)/'
   run stripraw-noregex format.go   's/\ttext = reColor.ReplaceAllString\(text, ""\)\n//'
+  # phase 3: modes.go value level
+  run newcmodes-pad    modes.go    's/for i := len\(split\); i < 4; i\+\+/for i := len(split); i < 3; i++/'
+  run parse-argcount   modes.go    's/\t\t\tmode.args = args\[argCount\]\n\t\t\targCount\+\+\n/\t\t\tmode.args = args[argCount]\n/'
+  run apply-setting    modes.go    's/\t\tif !modes\[i\].setting \{\n\t\t\tcontinue/\t\tif modes[i].setting {\n\t\t\tcontinue/'
+  run apply-remove     modes.go    's/newModes = append\(newModes\[:j\], newModes\[j\+1:\]...\)/newModes = append(newModes[:j], newModes[j:]...)/'
+  run hasmode-neq      modes.go    's/if string\(c.modes\[i\].name\) == mode \{\n\t\t\treturn true/if string(c.modes[i].name) != mode {\n\t\t\treturn true/'
+  run modestring-sep   modes.go    's/args \+= " " \+ c.modes\[i\].args/args += "," + c.modes[i].args/'
+  run copy-from1       modes.go    's/for i := 0; i < len\(c.modes\); i\+\+ \{\n\t\tnc.modes\[i\]/for i := 1; i < len(c.modes); i++ {\n\t\tnc.modes[i]/'
+  run perms-set-op     modes.go    's/case OperatorPrefix:\n\t\t\tm.Op = true/case OperatorPrefix:\n\t\t\tm.Voice = true/'
+  run perms-frommode   modes.go    's/case ModeVoice:\n\t\tm.Voice = mode.add/case ModeVoice:\n\t\tm.Voice = !mode.add/'
+  # state.go list helpers
+  run addchannel-sort  state.go    's/\tsort.Strings\(u.ChannelList\)\n//'
+  run delchannel-slice state.go    's/u.ChannelList = append\(u.ChannelList\[:j\], u.ChannelList\[j\+1:\]...\)/u.ChannelList = append(u.ChannelList[:j], u.ChannelList[j:]...)/'
+  run adduser-fold     state.go    's/ch.UserList = append\(ch.UserList, ToRFC1459\(nick\)\)/ch.UserList = append(ch.UserList, nick)/'
+  run userin-fold      state.go    's/func \(ch \*Channel\) UserIn\(name string\) bool \{\n\tname = ToRFC1459\(name\)\n/func (ch *Channel) UserIn(name string) bool {\n/'
+  # cap_sasl.go, conn.go rate
+  run saslplain-sep    cap_sasl.go 's/in = append\(in, 0x0\)\n\tin = append\(in, \[\]byte\(sasl.User\)...\)/in = append(in, 0x1)\n\tin = append(in, []byte(sasl.User)...)/'
+  run saslext-ident    cap_sasl.go 's/if sasl.Identity != "" \{/if sasl.Identity == "" {/'
+  run saslchunk-400    cap_sasl.go 's/if len\(auth\) == 400 \{/if len(auth) == 399 {/'
+  run saslchunk-size   cap_sasl.go 's/const saslChunkSize = 400/const saslChunkSize = 399/'
+  run rate-8s          conn.go     's/c.writeDelay > \(8 \* time.Second\)/c.writeDelay > (9 * time.Second)/'
+  run rate-after       conn.go     's/if c.lastDue.After\(last\)/if c.lastDue.Before(last)/'
+  run rate-due         conn.go     's/c.lastDue = now.Add\(_time\)/c.lastDue = now/'
+  # commands.go
+  run join-max         commands.go 's/max := cmd.c.MaxEventLength\(\) - len\(JOIN\) - 1/max := cmd.c.MaxEventLength() - len(JOIN) - 2/'
+  run list-flush       commands.go 's/cmd.c.Send\(&Event\{Command: LIST, Params: \[\]string\{buffer\}\}\)\n\t\t\tbuffer = ""/cmd.c.Send(&Event{Command: LIST, Params: []string{buffer}})/'
+  run ping-sink        commands.go 's/cmd.c.write\(&Event\{Command: PING/cmd.c.Send(&Event{Command: PING/'
+  run kick-params      commands.go 's/Params: \[\]string\{channel, user\}\}\)/Params: []string{user, channel}})/'
+  run ban-flag         commands.go 's/cmd.Mode\(channel, "\+b", mask\)/cmd.Mode(channel, "-b", mask)/'
+  # cap.go parseCap
+  run parsecap-val     cap.go      's/if val < 1 \|\| len\(parts\[i\]\) < val\+1/if val < 0 || len(parts[i]) < val+1/'
+  run parsecap-opt     cap.go      's/out\[parts\[i\]\[:val\]\]\[option\[:j\]\] = option\[j\+1:\]/out[parts[i][:val]][option[:j]] = option[j:]/'
+  # not a semantic change (a local variable renamed in Apply): Funcs.lean changes, the Tie modules still build
+  run apply-rename     modes.go    's/\bnewModes\b/nmodes/g' pass
   # not a semantic change: must still build
   run comment-only     event.go    's/\/\/ Command is required./\/\/ The command is required./' pass
   exit $rc
